@@ -783,18 +783,103 @@ Fixpoint wrun_obs (w : world) (ops : list wop) : list (list Z) :=
   | o :: rest => let '(w', r) := wstep w o in wrow w' o r :: wrun_obs w' rest
   end.
 
+(* ====================================================================== *)
+(* Part 1f: callbacks that call back into the lysosome                      *)
+
+(* digest() runs the digesters - and, through _digest_toxic, the on_toxic
+   callback - OUTSIDE the lock, after it has taken its items off the queue.  A
+   digester / callback of the CALLER may therefore call back into the same
+   lysosome from the thread that is inside digest(): read it
+   (get_queue_status(), get_statistics(): nothing changes), or make a call of
+   its own - digest(j), an ingest of any kind, autophagy() - which runs to
+   completion before the callback returns.  Such a nested call is a call that
+   runs between two digester calls of the digest() in progress: a re-entrant
+   digest(k) IS the interleaved history
+
+     PassBegin self k ; [ the call the callback of item 1 makes ] ; PassStep self ;
+                        [ the call the callback of item 2 makes ] ; PassStep self ; ...
+
+   of Part 1b, with the calling thread's own pass labelled [self_label].
+   [acts] = which call the digester / on_toxic of which item (by id) makes;
+   the calls made by the callbacks that run INSIDE a nested call do not call
+   back again (the harness' callbacks re-enter at depth one). *)
+
+Inductive xop :=
+| XR (o : rop)               (* any step of Part 1d *)
+| XDigest (k : option Z).    (* digest(k) whose callbacks call back as [acts] says *)
+
+Definition self_label : Z := -1.
+
+Fixpoint find_act (i : Z) (a : list (Z * op)) : option op :=
+  match a with
+  | [] => None
+  | (j, o) :: r => if j =? i then Some o else find_act i r
+  end.
+
+Definition act_steps (a : list (Z * op)) (it : item) : list rop :=
+  match find_act (it_id it) a with Some o => [ROp (Atomic o)] | None => [] end.
+
+(* what happens while digest() works through the items it took *)
+Fixpoint callbacks (a : list (Z * op)) (items : list item) : list rop :=
+  match items with
+  | [] => []
+  | it :: rest => act_steps a it ++ ROp (PassStep self_label) :: callbacks a rest
+  end.
+
+Definition xexpand (a : list (Z * op)) (cs : cstate) (o : xop) : list rop :=
+  match o with
+  | XR r => [r]
+  | XDigest k => ROp (PassBegin self_label k) :: callbacks a (to_process k (queue (c_base cs)))
+  end.
+
+Definition xstep (a : list (Z * op)) (st : config * cstate) (o : xop) : config * cstate :=
+  rrun_from (fst st) (snd st) (xexpand a (snd st) o).
+
+Definition xrun_from (a : list (Z * op)) (cfg : config) (cs : cstate) (ops : list xop) : config * cstate :=
+  fold_left (xstep a) ops (cfg, cs).
+
+Definition xrun (a : list (Z * op)) (cfg : config) (ops : list xop) : config * cstate :=
+  xrun_from a cfg cinit ops.
+
+(* the plain (reconfigured, interleaved) history a re-entrant history is *)
+Fixpoint xflatten (a : list (Z * op)) (cfg : config) (cs : cstate) (ops : list xop) : list rop :=
+  match ops with
+  | [] => []
+  | o :: rest =>
+      let e := xexpand a cs o in
+      let st := rrun_from cfg cs e in
+      e ++ xflatten a (fst st) (snd st) rest
+  end.
+
+(* ---- correspondence: one row per digester call / nested call / return --- *)
+Fixpoint xrun_obs (a : list (Z * op)) (cfg : config) (cs : cstate) (ops : list xop) : list (list Z) :=
+  match ops with
+  | [] => []
+  | o :: rest =>
+      let e := xexpand a cs o in
+      let st := rrun_from cfg cs e in
+      rrun_obs cfg cs e ++ xrun_obs a (fst st) (snd st) rest
+  end.
+
 (* a case: configuration, history [pre] (of the main thread, and of passes it
    drives; the threshold may be reassigned in between), and - for the runs of
    real threads under the scheduler of the harness - the programs of the
    threads and the schedule that was followed; [progs] = [] is a history
-   without scheduler threads.  Last: (keys of the caller's digesters mapping,
+   without scheduler threads.  Then: (keys of the caller's digesters mapping,
    world history) - when the world history is not empty the case is a history
-   of several lysosomes (Part 1e) and the other components are not used *)
-Definition case := (config * list rop * list (list op) * list Z * (list Z * list wop))%type.
+   of several lysosomes (Part 1e) and the other components are not used.
+   Last: (which callback calls back how, re-entrant history) - when that
+   history is not empty the case is a history with callbacks that call back
+   (Part 1f) from the initial state *)
+Definition case := (config * list rop * list (list op) * list Z * (list Z * list wop)
+                    * (list (Z * op) * list xop))%type.
 
 Definition run_case (c : case) : list (list Z) :=
-  let '(cfg, pre, progs, sched, (wkeys, wops)) := c in
+  let '(cfg, pre, progs, sched, (wkeys, wops), (acts, xops)) := c in
   cfg_row cfg ::
+  match xops with
+  | _ :: _ => xrun_obs acts cfg cinit xops
+  | [] =>
   match wops with
   | _ :: _ => wrun_obs (mkW [] wkeys) wops
   | [] =>
@@ -805,6 +890,7 @@ Definition run_case (c : case) : list (list Z) :=
       let ts0 := mkT (snd st) progs in
       let sch := map Z.to_nat sched in
       trun_obs (fst st) ts0 sch ++ [final_row (trun (fst st) ts0 sch)]
+  end
   end
   end.
 
